@@ -1,6 +1,6 @@
 // Unit uri_algebra (C12, path-algebra clauses): the operations of src/uri.rs on ALREADY PARSED
 // values, verified for all lengths.  The parsers (`from_bytes`: iterator adapters / splitn) are out
-// of scope (bounded Kani unit uri_kb); what they establish is captured here as the data-structure
+// of scope here (unit uri_parse; bounded Kani unit uri_kb); what they establish is captured here as the data-structure
 // invariant `wf_rsync(bytes, module_start, path_start)` / `wf_https(bytes, path_idx)`.  "The result
 // re-parses to an equal value" becomes: the result satisfies the invariant with ITS OWN cached
 // offsets, and the offsets are a function of the bytes (lemma_rsync_offsets_unique /
@@ -69,11 +69,6 @@ impl BytesMut {
 // ================================================================================================
 // environment: std
 // ================================================================================================
-pub open spec fn lower(c: u8) -> u8 { if 0x41 <= c <= 0x5a { (c + 0x20) as u8 } else { c } }
-/// ASCII-case-insensitive equality of two octet strings
-pub open spec fn eq_ic(a: Seq<u8>, b: Seq<u8>) -> bool {
-    a.len() == b.len() && forall|i: int| #![trigger a[i]] #![trigger b[i]] 0 <= i < a.len() ==> lower(a[i]) == lower(b[i])
-}
 /// std: `[u8]::eq_ignore_ascii_case`: same length and byte-wise equal after `to_ascii_lowercase`
 pub assume_specification [ <[u8]>::eq_ignore_ascii_case ] (a: &[u8], b: &[u8]) -> (r: bool)
     ensures r == eq_ic(a@, b@);
@@ -149,53 +144,7 @@ pub assume_specification [ u8::to_ascii_lowercase ] (c: &u8) -> (r: u8) ensures 
 // ================================================================================================
 // specification vocabulary (property statement C12)
 // ================================================================================================
-/// the permitted URI characters: ! $..; = A..Z _ a..z ~
-pub open spec fn permitted(c: u8) -> bool {
-    c == 0x21 || (0x24 <= c <= 0x3b) || c == 0x3d || (0x41 <= c <= 0x5a) || c == 0x5f || (0x61 <= c <= 0x7a) || c == 0x7e
-}
-pub open spec fn all_permitted(s: Seq<u8>) -> bool { forall|i: int| 0 <= i < s.len() ==> permitted(#[trigger] s[i]) }
-pub open spec fn rsync_scheme() -> Seq<u8> { seq![0x72u8, 0x73, 0x79, 0x6e, 0x63, 0x3a, 0x2f, 0x2f] }
-pub open spec fn https_scheme() -> Seq<u8> { seq![0x68u8, 0x74, 0x74, 0x70, 0x73, 0x3a, 0x2f, 0x2f] }
-
-/// a segment of `b[s..]` starts at i / ends just before j
-pub open spec fn seg_start(b: Seq<u8>, s: int, i: int) -> bool { i == s || b[i - 1] == 0x2f }
-pub open spec fn seg_end(b: Seq<u8>, j: int) -> bool { j == b.len() || b[j] == 0x2f }
-/// `b[s..]` split at '/' has no empty segment except possibly the last one
-pub open spec fn no_empty_seg(b: Seq<u8>, s: int) -> bool {
-    forall|i: int| s <= i < b.len() && #[trigger] b[i] == 0x2f ==> i > s && b[i - 1] != 0x2f
-}
-/// a "." or ".." segment of `b[s..]` starts at i
-pub open spec fn dot_seg_at(b: Seq<u8>, s: int, i: int) -> bool {
-    seg_start(b, s, i) && b[i] == 0x2e
-    && (seg_end(b, i + 1) || (i + 1 < b.len() && b[i + 1] == 0x2e && seg_end(b, i + 2)))
-}
-pub open spec fn no_dot_seg(b: Seq<u8>, s: int) -> bool {
-    forall|i: int| s <= i < b.len() ==> !#[trigger] dot_seg_at(b, s, i)
-}
-/// what `Rsync::check_path(&b[s..])` accepts
-pub open spec fn path_ok_from(b: Seq<u8>, s: int) -> bool { no_empty_seg(b, s) && no_dot_seg(b, s) }
-pub open spec fn path_ok(p: Seq<u8>) -> bool { path_ok_from(p, 0) }
-
-/// The invariant established by `Rsync::from_bytes`: permitted characters only, "rsync://" in any
-/// case, `check_path(&bytes[8..])` accepted, a non-empty authority up to the first '/', a non-empty
-/// module name up to the second '/', the cached offsets point just behind these two slashes.
-pub open spec fn wf_rsync(b: Seq<u8>, ms: int, ps: int) -> bool {
-    &&& 10 <= ms && ms + 2 <= ps && ps <= b.len()
-    &&& eq_ic(b.subrange(0, 8), rsync_scheme())
-    &&& all_permitted(b)
-    &&& b[ms - 1] == 0x2f && b[ps - 1] == 0x2f
-    &&& forall|i: int| 8 <= i < ps - 1 && i != ms - 1 ==> #[trigger] b[i] != 0x2f
-    &&& path_ok_from(b, 8)
-}
-/// The invariant established by `Https::from_bytes`: permitted characters only, "https://" in any
-/// case, `path_idx` is the index of the first '/' at or behind index 8, or the length if there is none.
-pub open spec fn wf_https(b: Seq<u8>, pi: int) -> bool {
-    &&& 8 <= pi <= b.len()
-    &&& eq_ic(b.subrange(0, 8), https_scheme())
-    &&& all_permitted(b)
-    &&& forall|i: int| 8 <= i < pi ==> #[trigger] b[i] != 0x2f
-    &&& (pi < b.len() ==> b[pi] == 0x2f)
-}
+//@include shared/uri_vocab.v.rs
 /// the first n octets agree: the first k (scheme, authority) ASCII-case-insensitively, the rest exactly
 pub open spec fn agree(x: Seq<u8>, y: Seq<u8>, k: int, n: int) -> bool {
     n <= x.len() && n <= y.len()
@@ -811,19 +760,14 @@ pub proof fn lemma_rel_rest(s: Seq<u8>, o: Seq<u8>, ms: int, ps: int)
 // ================================================================================================
 // the code
 // ================================================================================================
-// ---- the character and segment checks (assumed here, bounded evidence in unit uri_kb) ---------------
+// ---- the character and segment checks (contract links: proved for all lengths in unit uri_parse) ----
 //@fn src/uri.rs :: - :: is_u8_uri_ascii
 //@spec
     ensures r == permitted(ch),
 //@/spec
 //@end
-//@fn src/uri.rs :: - :: check_uri_ascii external_body
-//@sigsub R12 "<S: AsRef<[u8]>>(slice: S)" "(slice: &[u8])"
-//@spec
-    ensures
-        r.is_ok() == all_permitted(slice@),
-        r matches Err(e) ==> e == Error::InvalidCharacters,
-//@/spec
+//@stub uri_parse :: check_uri_ascii
+pub fn check_uri_ascii(slice: &[u8]) -> (r: Result<(), Error>)
 //@end
 
 impl Rsync {
@@ -833,12 +777,8 @@ impl Rsync {
         ensures r.bytes@ == self.bytes@, r.module_start == self.module_start, r.path_start == self.path_start,
     { unimplemented!() }
 
-    //@fn src/uri.rs :: impl Rsync :: check_path external_body
-    //@spec
-        ensures
-            r.is_ok() == path_ok(path@),
-            r matches Err(e) ==> e == Error::DotSegments || e == Error::EmptySegments,
-    //@/spec
+    //@stub uri_parse :: impl Rsync :: check_path
+    fn check_path(path: &[u8]) -> (r: Result<(), Error>)
     //@end
 
     //@fn src/uri.rs :: impl Rsync :: as_slice
